@@ -30,6 +30,8 @@ PairOblig(a, b) ==
   /\ IntersectsSem(a, b, V) = IntersectsSyn(a, b)
   /\ (a = b) = (CubeSat(a, V) = CubeSat(b, V))                       \* equality is semantic
   /\ CubeFn(CubeAnd(a, b), N) = CubeFn(a, N) \cap CubeFn(b, N)
+  /\ CubeFnX(a, N) = CubeFn(a, N)                                    \* the enumerating form of the denotation
+  /\ N >= 1 => CubeFnX(a, N - 1) = CubeFn(a, N - 1)                  \* ... also with literals beyond the size
   /\ IntersectsSyn(a, b) = (CubeAnd(a, b) # CubeZero)
   /\ CubeNumLits(a) = (IF a = CubeZero THEN 0 ELSE Cardinality(a.p) + Cardinality(a.q))
 
@@ -41,7 +43,8 @@ CubesOblig(l) ==
       neg == SopNotK(l)
       cnj == SopAndK(l, sub)
       dsj == SopOrK(l, sub)
-  IN /\ SopFn(N, smp) = f /\ Irredundant(smp)
+  IN /\ SopFnX(N, l) = f /\ EsopFnX(N, l) = EsopFn(N, l)
+     /\ SopFn(N, smp) = f /\ Irredundant(smp)
      /\ SopFn(N, neg) = Dom(N) \ f /\ Irredundant(neg)
      /\ SopFn(N, cnj) = f \cap SopFn(N, sub) /\ Irredundant(cnj)
      /\ SopFn(N, dsj) = f \cup SopFn(N, sub) /\ Irredundant(dsj)
